@@ -104,10 +104,53 @@ impl Amount {
         }
         Amount(r)
     }
+    /// ruint's narrowing conversions.  Above the target's range the result is exact (MAX / wrapped / panic);
+    /// inside it the value becomes a native integer, which this runtime can only represent by pinning the
+    /// path to the current model's value (recorded as a sample: the harness covers "narrowed_within_range")
+    pub fn saturating_to<T: Narrow>(&self) -> T {
+        let v = self.norm();
+        if v.slt(T::limit()).get() {
+            symrt::cover("narrowed_within_range_sampled");
+            T::from_u256(v.concretize_by_model())
+        } else {
+            T::max()
+        }
+    }
+    pub fn to<T: Narrow>(&self) -> T {
+        let v = self.norm();
+        if v.slt(T::limit()).get() {
+            symrt::cover("narrowed_within_range_sampled");
+            T::from_u256(v.concretize_by_model())
+        } else {
+            panic!("Uint::to: value does not fit the target type")
+        }
+    }
+    pub fn wrapping_to<T: Narrow>(&self) -> T {
+        symrt::cover("narrowed_within_range_sampled");
+        T::from_u256(self.norm().concretize_by_model() & (T::limit_u256() - ruint::aliases::U256::from(1u8)))
+    }
     pub fn as_le_bytes(&self) -> Vec<u8> {
         let v: [u8; 32] = self.norm().model_value().to_le_bytes();
         v.to_vec()
     }
+}
+pub trait Narrow {
+    fn limit_u256() -> ruint::aliases::U256;
+    fn limit() -> SymU<256> {
+        SymU::konst_u256(Self::limit_u256())
+    }
+    fn from_u256(v: ruint::aliases::U256) -> Self;
+    fn max() -> Self;
+}
+impl Narrow for u128 {
+    fn limit_u256() -> ruint::aliases::U256 { ruint::aliases::U256::from(1u8) << 128 }
+    fn from_u256(v: ruint::aliases::U256) -> Self { v.to::<u128>() }
+    fn max() -> Self { u128::MAX }
+}
+impl Narrow for u64 {
+    fn limit_u256() -> ruint::aliases::U256 { ruint::aliases::U256::from(1u8) << 64 }
+    fn from_u256(v: ruint::aliases::U256) -> Self { v.to::<u64>() }
+    fn max() -> Self { u64::MAX }
 }
 impl From<u64> for Amount {
     fn from(v: u64) -> Self {
